@@ -31,7 +31,9 @@ THEOREMS = {
             "lsh_nhood_union", "lshInsert_getD", "mem_hashIdx", "hashIdx_append", "lshInv_fit", "lshInv_partialFit",
             "lsh_nhood_exact", "self_collision"],
     "C12": ["clusters_cell_rows", "clusters_cell_from_scratch", "clusters_partial_hist", "clusters_query_cell",
-            "tree_unobserved_arm", "tree_fit_empty_batch_arm"],
+            "tree_unobserved_arm", "tree_fit_empty_batch_arm",
+            "leafFold_spec", "treeFold_get", "tree_leaf_rewards", "tree_fit_leaf", "tree_partialFit_leaf", "tree_row_arm",
+            "tree_leaf_exact"],
     "C13": ["ws_pairs_spec", "ws_target", "ws_untouched", "cold_arms_spec", "cold_not_trained", "coldToWarm_targets",
             "copyFold_get_target", "copyFold_get_other", "argminFirst_spec",
             "sortRat_sorted", "quantileLin_mono", "ws_monotone_in_quantile", "ws_raises_indep", "warmed_coldToWarm",
@@ -63,7 +65,7 @@ IMPORTS = {
     "C09": ["MabModel.Props.C09"],
     "C10": ["MabModel.Props.C10", "MabModel.Props.C10b"],
     "C11": ["MabModel.Props.C11"],
-    "C12": ["MabModel.Props.C12"],
+    "C12": ["MabModel.Props.C12", "MabModel.Props.C12b"],
     "C13": ["MabModel.Props.C13", "MabModel.Props.C13b"],
     "C14": ["MabModel.Props.C14"],
     "C15": ["MabModel.Props.C15"],
